@@ -196,6 +196,135 @@ class Summaries:
         ctx.ex.write(st, p.root, p.path, Agg("adt", OPTION, 0, [], p.pty), p.pty)
         return [(st, old)]
 
+    # ------------------------------------------------------------------ Option / Result combinators
+    def call_f(self, ctx, st, f, args):
+        """call a function value (fn item / constructor / closure); it may fork: -> [(state, value)]"""
+        ex = ctx.ex
+        if isinstance(f, FnV):
+            return ex.call(st, ctx.fr, f.fn, {}, args, None, ctx.span)
+        sty = f.ty if isinstance(f, (Agg, SymV)) and getattr(f, "ty", None) is not None else {"k": "closure", "def": getattr(f, "name", None)}
+        r = {"self_ty": sty, "args": [], "trait": "core::ops::function::FnOnce"}
+        return ex.call_fn_value(st, ctx.fr, r, [f, Agg("tuple", None, None, args)], None, ctx.span)
+
+    def per_variant(self, ctx, st, v, handler):
+        """fork on the variant of enum value v; handler(state, variant, fields) -> [(state, value)]"""
+        out = []
+        cases = self.split_enum(ctx.ex, st, v)
+        for c, var, fs in cases:
+            s2 = st.fork() if len(cases) > 1 else st
+            if not s2.facts.assume(c, 1):
+                continue
+            out.extend(handler(s2, var, fs))
+        return out
+
+    def dest_agg(self, ctx, name, var, fields):
+        return Agg("adt", name, var, fields, ctx.ex.normalize(ctx.dest_ty) if ctx.dest_ty is not None else None)
+
+    def s_opt_as_ref(self, ctx, st):
+        """core::option::Option::as_mut | core::option::Option::as_ref | core::result::Result::as_mut | core::result::Result::as_ref"""
+        p = ctx.args[0]
+        if not isinstance(p, Ptr):
+            return None
+        v = ctx.ex.read(st, p.root, p.path, p.pty)
+        is_opt = ctx.key.startswith(OPTION)
+        name = OPTION if is_opt else RESULT
+        mut = ctx.callee["name"] == "as_mut"
+
+        def h(s2, var, fs):
+            if is_opt and var == 0:
+                return [(s2, self.dest_agg(ctx, name, 0, []))]
+            fty = getattr(fs[0], "ty", None) if fs else None
+            q = Ptr(p.root, tuple(p.path) + (("d", var), ("f", 0, None)), None, fty, mut and p.mut)
+            return [(s2, self.dest_agg(ctx, name, var, [q]))]
+        return self.per_variant(ctx, st, v, h)
+
+    def s_opt_map(self, ctx, st):
+        """core::option::Option::map | core::result::Result::map | core::option::Option::and_then | core::result::Result::and_then"""
+        v, f = ctx.args
+        is_opt = ctx.key.startswith(OPTION)
+        name = OPTION if is_opt else RESULT
+        good = 1 if is_opt else 0
+        flat = ctx.callee["name"] == "and_then"
+
+        def h(s2, var, fs):
+            if var != good:
+                return [(s2, self.dest_agg(ctx, name, var, list(fs)))]
+            out = []
+            for s3, r in self.call_f(ctx, s2, f, [fs[0]]):
+                out.append((s3, r if flat else self.dest_agg(ctx, name, good, [r])))
+            return out
+        return self.per_variant(ctx, st, v, h)
+
+    def s_opt_map_or(self, ctx, st):
+        """core::option::Option::map_or | core::result::Result::map_or | core::option::Option::map_or_else | core::result::Result::map_or_else"""
+        v, d, f = ctx.args
+        is_opt = ctx.key.startswith(OPTION)
+        good = 1 if is_opt else 0
+        lazy = ctx.callee["name"] == "map_or_else"
+
+        def h(s2, var, fs):
+            if var == good:
+                return self.call_f(ctx, s2, f, [fs[0]])
+            if lazy:
+                return self.call_f(ctx, s2, d, [] if is_opt else [fs[0]])
+            return [(s2, d)]
+        return self.per_variant(ctx, st, v, h)
+
+    def s_opt_unwrap_or(self, ctx, st):
+        """core::option::Option::unwrap_or | core::result::Result::unwrap_or | core::option::Option::unwrap_or_else | core::result::Result::unwrap_or_else | core::option::Option::unwrap_or_default | core::result::Result::unwrap_or_default"""
+        v = ctx.args[0]
+        is_opt = ctx.key.startswith(OPTION)
+        good = 1 if is_opt else 0
+        nm = ctx.callee["name"]
+        if nm == "unwrap_or_default":
+            return None
+
+        def h(s2, var, fs):
+            if var == good:
+                return [(s2, fs[0])]
+            if nm == "unwrap_or_else":
+                return self.call_f(ctx, s2, ctx.args[1], [] if is_opt else [fs[0]])
+            return [(s2, ctx.args[1])]
+        return self.per_variant(ctx, st, v, h)
+
+    def s_opt_ok_or(self, ctx, st):
+        """core::option::Option::ok_or | core::option::Option::ok_or_else"""
+        v, e = ctx.args
+        lazy = ctx.callee["name"] == "ok_or_else"
+
+        def h(s2, var, fs):
+            if var == 1:
+                return [(s2, self.dest_agg(ctx, RESULT, 0, [fs[0]]))]
+            if lazy:
+                return [(s3, self.dest_agg(ctx, RESULT, 1, [r])) for s3, r in self.call_f(ctx, s2, e, [])]
+            return [(s2, self.dest_agg(ctx, RESULT, 1, [e]))]
+        return self.per_variant(ctx, st, v, h)
+
+    def s_res_err(self, ctx, st):
+        """core::result::Result::err"""
+        def g(var, fs):
+            return Agg("adt", OPTION, 1, [fs[0]]) if var == 1 else Agg("adt", OPTION, 0, [])
+        return [(st, self.map_enum(ctx, st, ctx.args[0], g))]
+
+    def s_opt_replace(self, ctx, st):
+        """core::option::Option::replace | core::option::Option::insert"""
+        p, x = ctx.args
+        if not isinstance(p, Ptr) or ctx.callee["name"] != "replace":
+            return None
+        old = ctx.ex.read(st, p.root, p.path, p.pty)
+        ctx.ex.write(st, p.root, p.path, Agg("adt", OPTION, 1, [x], p.pty), p.pty)
+        return [(st, old)]
+
+    def s_opt_copied(self, ctx, st):
+        """core::option::Option::copied | core::option::Option::cloned"""
+        v = ctx.args[0]
+
+        def h(s2, var, fs):
+            if var == 0:
+                return [(s2, self.dest_agg(ctx, OPTION, 0, []))]
+            return [(s2, self.dest_agg(ctx, OPTION, 1, [self.deref_arg(ctx, s2, fs[0])]))]
+        return self.per_variant(ctx, st, v, h)
+
     # ------------------------------------------------------------------ conversions
     def s_into(self, ctx, st):
         """core::convert::Into::into"""
@@ -313,6 +442,60 @@ class Summaries:
         """int::wrapping_add"""
         a, b = ctx.args
         return [(st, ctx.ex.wrap(a.poly() + b.poly(), a.bits, a.signed, st.facts, "wrapping_add"))]
+
+    @staticmethod
+    def int_bounds(v):
+        if v.signed:
+            return -(1 << (v.bits - 1)), (1 << (v.bits - 1)) - 1
+        return 0, (1 << v.bits) - 1
+
+    def s_checked_arith(self, ctx, st):
+        """int::checked_add | int::checked_sub | int::checked_mul"""
+        a, b = ctx.args
+        if not (isinstance(a, IntV) and isinstance(b, IntV)):
+            return None
+        op = ctx.callee["name"]
+        pa, pb = a.poly(), b.poly()
+        r = pa + pb if op == "checked_add" else pa - pb if op == "checked_sub" else pa * pb
+        lo, hi = self.int_bounds(a)
+        fits = ONE
+        for side in (r - lo, Poly.const(hi) - r):
+            if st.facts.entails_ge0(side, 2, 1) is None:      # a bound the facts already give is not a condition
+                fits = fits * ge0(side, st.facts)
+        fits = st.facts.simplify(fits)
+        some = Agg("adt", OPTION, 1, [IntV(a.bits, a.signed, p=r)], ctx.ex.normalize(ctx.dest_ty) if ctx.dest_ty else None)
+        none = Agg("adt", OPTION, 0, [], ctx.ex.normalize(ctx.dest_ty) if ctx.dest_ty else None)
+        cv = fits.const_value()
+        if cv == 1:
+            return [(st, some)]
+        if cv == 0:
+            return [(st, none)]
+        out = []
+        s1 = st.fork()
+        if s1.facts.assume(fits, 1):
+            out.append((s1, some))
+        if st.facts.assume(fits, 0):
+            out.append((st, none))
+        return out
+
+    def s_saturating_arith(self, ctx, st):
+        """int::saturating_add | int::saturating_sub"""
+        a, b = ctx.args
+        if not (isinstance(a, IntV) and isinstance(b, IntV)):
+            return None
+        pa, pb = a.poly(), b.poly()
+        r = pa + pb if ctx.callee["name"] == "saturating_add" else pa - pb
+        lo, hi = self.int_bounds(a)
+        over = ge0(r - hi - 1, st.facts)
+        under = ge0(Poly.const(lo) - 1 - r, st.facts)
+        val = over * hi + under * lo + (ONE - over - under) * r
+        return [(st, IntV(a.bits, a.signed, p=st.facts.simplify(val)))]
+
+    def s_wrapping_sub(self, ctx, st):
+        """int::wrapping_sub | int::wrapping_mul"""
+        a, b = ctx.args
+        r = a.poly() - b.poly() if ctx.callee["name"] == "wrapping_sub" else a.poly() * b.poly()
+        return [(st, ctx.ex.wrap(r, a.bits, a.signed, st.facts, ctx.callee["name"]))]
 
     def s_rem_euclid(self, ctx, st):
         """int::rem_euclid"""
@@ -919,11 +1102,54 @@ class Summaries:
         ln, ty = self.hv_get(ctx, st, p)
         return [(st, Agg("adt", self.HV, 0, [IntV(ctx.ex.pbits, False, p=ln)], ty))]
 
+    def default_of(self, ctx, t):
+        ib = ctx.ex.ibits(t)
+        if ib and t.get("k") == "int":
+            return IntV(ib[0], ib[1], p=ZERO)
+        if t.get("k") == "bool":
+            return BoolV(ZERO)
+        if t.get("k") == "adt" and t.get("def") == self.HV:
+            return Agg("adt", self.HV, 0, [IntV(ctx.ex.pbits, False, p=ZERO)], t)
+        if t.get("k") == "adt" and t.get("def") == OPTION:
+            return Agg("adt", OPTION, 0, [], t)
+        return None
+
+    def s_mem_take(self, ctx, st):
+        """core::mem::take | core::mem::replace"""
+        p = ctx.args[0]
+        if not isinstance(p, Ptr):
+            return None
+        ex = ctx.ex
+        old = ex.read(st, p.root, p.path, p.pty)
+        if ctx.callee["name"] == "replace":
+            new = ctx.args[1]
+        else:
+            t = ex.normalize(ctx.dest_ty) if ctx.dest_ty is not None else getattr(old, "ty", None)
+            new = self.default_of(ctx, t) if t is not None else None
+            if new is None:
+                return None
+        ex.write(st, p.root, p.path, new, p.pty)
+        return [(st, old)]
+
+    def s_mem_swap(self, ctx, st):
+        """core::mem::swap"""
+        p, q = ctx.args
+        if not (isinstance(p, Ptr) and isinstance(q, Ptr)):
+            return None
+        ex = ctx.ex
+        a, b = ex.read(st, p.root, p.path, p.pty), ex.read(st, q.root, q.path, q.pty)
+        ex.write(st, p.root, p.path, b, p.pty)
+        ex.write(st, q.root, q.path, a, q.pty)
+        return [(st, UNITV)]
+
     def s_default(self, ctx, st):
         """core::default::Default::default"""
         if ctx.r["kind"] == "body":
             return None
         t = ctx.gargs[0]
+        d = self.default_of(ctx, ctx.ex.normalize(t))
+        if d is not None:
+            return [(st, d)]
         ib = ctx.ex.ibits(t)
         if ib and t.get("k") == "int":
             return [(st, IntV(ib[0], ib[1], p=ZERO))]
